@@ -1674,16 +1674,19 @@ class CodeGenerator(NodeVisitor):
         if frame.require_output_check:
             self.outdent()
 
-    def visit_Assign(self, node: nodes.Assign, frame: Frame) -> None:
-        self.push_assign_tracking()
-
+    def _check_nsrefs(self, target: nodes.Expr, frame: Frame) -> None:
         # ``a.b`` is allowed for assignment, and is parsed as an NSRef. However,
         # it is only valid if it references a Namespace object. Emit a check for
         # that for each ref here, before assignment code is emitted. This can't
         # be done in visit_NSRef as the ref could be in the middle of a tuple.
         seen_refs: set[str] = set()
 
-        for nsref in node.find_all(nodes.NSRef):
+        if isinstance(target, nodes.NSRef):
+            nsrefs: t.Iterable[nodes.NSRef] = [target]
+        else:
+            nsrefs = target.find_all(nodes.NSRef)
+
+        for nsref in nsrefs:
             if nsref.name in seen_refs:
                 # Only emit the check for each reference once, in case the same
                 # ref is used multiple times in a tuple, `ns.a, ns.b = c, d`.
@@ -1699,6 +1702,9 @@ class CodeGenerator(NodeVisitor):
             )
             self.outdent()
 
+    def visit_Assign(self, node: nodes.Assign, frame: Frame) -> None:
+        self.push_assign_tracking()
+        self._check_nsrefs(node.target, frame)
         self.newline(node)
         self.visit(node.target, frame)
         self.write(" = ")
@@ -1716,6 +1722,7 @@ class CodeGenerator(NodeVisitor):
         self.enter_frame(block_frame)
         self.buffer(block_frame)
         self.blockvisit(node.body, block_frame)
+        self._check_nsrefs(node.target, frame)
         self.newline(node)
         self.visit(node.target, frame)
         if node.filter is not None:
